@@ -4,7 +4,7 @@
     EVERY command what the implementation shows; [check] replays the history
     on the model and compares step by step. *)
 From Coq Require Import Strings.Byte.
-From CSS Require Import Lib.Base Lib.Cases Model.TPM.
+From CSS Require Import Lib.Base Lib.Cases Model.TPM Model.TPMSlices.
 
 (** * Packed byte-string literals
 
@@ -147,9 +147,19 @@ Fixpoint check_steps (H : Z -> list Z -> list Z) (st : state) (steps : list (cmd
       step_matches st st' r o && check_steps H st' t
   end.
 
+(** the same comparison for the buffer-level model, observed through [abs];
+    spare capacity after a growing append: as much again (unobservable) *)
+Fixpoint scheck_steps (H : Z -> list Z -> list Z) (s : sstate) (steps : list (cmd * sobs)) : bool :=
+  match steps with
+  | [] => true
+  | (c, o) :: t =>
+      let '(s', r) := sstep H (fun n => n) s c in
+      step_matches (abs s) (abs s') r o && scheck_steps H s' t
+  end.
+
 Definition check (c : case) : bool :=
   match c with
-  | CHist tbl steps => check_steps (H_tbl tbl) fresh steps
+  | CHist tbl steps => check_steps (H_tbl tbl) fresh steps && scheck_steps (H_tbl tbl) snew steps
   end.
 
 Definition mismatches := mismatches_by check.
